@@ -264,14 +264,33 @@ def f_eval(f, assign, univ, empty):
     raise AnalysisError("bad formula")
 
 
-def sat_set(f, univ, empty, limit=14):
-    """Set of subject values for which f is satisfiable for SOME truth assignment of the opaque atoms."""
+def f_equiv(f1, f2, univ=None, empty=None):
+    """semantic equivalence of two formulas (truth table over the opaque atoms; set atoms compared as sets)"""
+    if univ is None:
+        univ, empty = FinSet({0}, frozenset({0})), FinSet((), frozenset({0}))
+    ops = f_opaques(f1)
+    f_opaques(f2, ops)
+    if len(ops) > 14:
+        raise AnalysisError("too many opaque atoms")
+    for bits in itertools.product((False, True), repeat=len(ops)):
+        a = dict(zip(ops, bits))
+        if not (f_eval(f1, a, univ, empty) == f_eval(f2, a, univ, empty)):
+            return False
+    return True
+
+
+def sat_set(f, univ, empty, limit=14, assume=None):
+    """Set of subject values for which f is satisfiable for SOME truth assignment of the opaque atoms
+    (atoms listed in `assume` are fixed)."""
     ops = f_opaques(f)
     if len(ops) > limit:
         raise AnalysisError("too many opaque atoms (%d) in guard formula" % len(ops))
     r = empty
     for bits in itertools.product((False, True), repeat=len(ops)):
-        r = r | f_eval(f, dict(zip(ops, bits)), univ, empty)
+        a = dict(zip(ops, bits))
+        if assume and any(k in a and a[k] != v for k, v in assume.items()):
+            continue
+        r = r | f_eval(f, a, univ, empty)
     return r
 
 
@@ -290,11 +309,31 @@ class Exit:
 class GuardWalker:
     """Walks a function body keeping the reach formula.  `atomize(test) -> formula` is supplied by the rule."""
 
-    def __init__(self, atomize, call_raises=None):
-        self.atomize = atomize
+    def __init__(self, atomize, call_raises=None, env=None):
+        self._atomize = atomize
+        self.env = env if env is not None else {}      # boolean locals -> formula
         self.exits = []
         self.call_raises = call_raises   # optional: expr-stmt call -> formula under which it raises
         self.visits = []                 # (stmt, reach formula) for every simple statement
+
+    def atomize(self, t):
+        """atomize with tracked boolean locals substituted"""
+        if isinstance(t, ast.Name) and t.id in self.env:
+            return self.env[t.id]
+        if isinstance(t, ast.BoolOp):
+            parts = [self.atomize(v) for v in t.values]
+            return f_and(*parts) if isinstance(t.op, ast.And) else f_or(*parts)
+        if isinstance(t, ast.UnaryOp) and isinstance(t.op, ast.Not):
+            return f_not(self.atomize(t.operand))
+        if isinstance(t, ast.Call) and isinstance(t.func, ast.Name) and t.func.id == "bool" and len(t.args) == 1:
+            return self.atomize(t.args[0])
+        return self._atomize(t)
+
+    @staticmethod
+    def _boolish(v):
+        return isinstance(v, (ast.Compare, ast.BoolOp)) or (isinstance(v, ast.UnaryOp) and isinstance(v.op, ast.Not)) or \
+            (isinstance(v, ast.Constant) and isinstance(v.value, bool)) or \
+            (isinstance(v, ast.Call) and isinstance(v.func, ast.Name) and v.func.id == "bool")
 
     def run(self, body):
         r = self.block(body, True)
@@ -314,8 +353,25 @@ class GuardWalker:
     def stmt(self, st, reach):
         if isinstance(st, ast.If):
             c = self.atomize(st.test)
-            a = self.block(st.body, f_and(reach, c))
-            b = self.block(st.orelse, f_and(reach, f_not(c)))
+            ra, rb = f_and(reach, c), f_and(reach, f_not(c))
+            env0 = dict(self.env)
+            a = self.block(st.body, ra)
+            env_a = self.env
+            self.env = dict(env0)
+            b = self.block(st.orelse, rb)
+            env_b = self.env
+            merged = {}
+            for k in set(env_a) | set(env_b):
+                va, vb = env_a.get(k), env_b.get(k)
+                if a is False and vb is not None:
+                    merged[k] = vb
+                elif b is False and va is not None:
+                    merged[k] = va
+                elif va is not None and vb is not None:
+                    merged[k] = va if va == vb else f_or(f_and(c, va), f_and(f_not(c), vb))
+            self.env = merged
+            if a == ra and b == rb:
+                return reach          # both branches fall through: (R and c) or (R and not c) == R
             return f_or(a, b)
         if isinstance(st, ast.Return):
             self.exits.append(Exit("return", st, reach, st.value))
@@ -328,11 +384,13 @@ class GuardWalker:
             self.exits.append(Exit("raise", st, f_and(reach, f_not(c)), None))
             return f_and(reach, c)
         if isinstance(st, (ast.For, ast.AsyncFor, ast.While)):
-            inner = GuardWalker(self.atomize, self.call_raises)
+            assigned = {n.id for x in st.body for n in ast.walk(x) if isinstance(n, ast.Name) and isinstance(n.ctx, ast.Store)}
+            inner = GuardWalker(self._atomize, self.call_raises, {k: v for k, v in self.env.items() if k not in assigned})
+            self.env = {k: v for k, v in self.env.items() if k not in assigned}
             inner.loop_depth = 1
             cond = True
             if isinstance(st, ast.While):
-                cond = self.atomize(st.test)
+                cond = inner.atomize(st.test)
             body_reach = f_and(reach, cond) if cond is not True else reach
             fall = inner.block(st.body, body_reach)
             self.exits.extend(inner.exits)
@@ -361,6 +419,19 @@ class GuardWalker:
         if isinstance(st, (ast.FunctionDef, ast.AsyncFunctionDef, ast.ClassDef)):
             return reach
         self.visits.append((st, reach))
+        if isinstance(st, (ast.Assign, ast.AnnAssign)) and getattr(st, "value", None) is not None:
+            tg = st.targets if isinstance(st, ast.Assign) else [st.target]
+            for t in tg:
+                for n in ast.walk(t):
+                    if isinstance(n, ast.Name):
+                        self.env.pop(n.id, None)
+            if len(tg) == 1 and isinstance(tg[0], ast.Name) and (self._boolish(st.value) or (isinstance(st.value, ast.Name) and st.value.id in self.env)):
+                try:
+                    self.env[tg[0].id] = self.atomize(st.value)
+                except AnalysisError:
+                    pass
+        elif isinstance(st, ast.AugAssign) and isinstance(st.target, ast.Name):
+            self.env.pop(st.target.id, None)
         if self.call_raises is not None:
             rc = self.call_raises(st)
             if rc is not None:
